@@ -548,6 +548,18 @@ theorem reachable_wf (s : State) (h : Reachable s) :
   rw [runB_eq_run]
   exact wf_run (init selfId seq0) _ (by simp [WF, init, PyDict.keys, vget, PyDict.get?])
 
+theorem runB_loc_ne_nil (s : State) (evs : List EvB) (h : s.loc ≠ []) : (runB s evs).loc ≠ [] := by
+  induction evs generalizing s with
+  | nil => simpa [runB] using h
+  | cons e r ih =>
+    simp only [runB]
+    exact ih _ (by rw [(stepB_refines s e).1]; exact step_loc_ne_nil s _ h)
+
+/-- the local vector of a reachable state is never empty (it holds at least the own entry written by `start()`) -/
+theorem reachable_loc_ne_nil (s : State) (h : Reachable s) : s.loc ≠ [] := by
+  obtain ⟨selfId, seq0, evs, _, _, _, rfl⟩ := h
+  exact runB_loc_ne_nil _ evs (by simp [init])
+
 /-- **vector_roundtrip_reachable.** In every reachable state, what `express_sync_interest` encodes for the local
     vector is decoded by the receiving side to exactly the entries of that vector (no well-formedness hypothesis). -/
 theorem vector_roundtrip_reachable (s : State) (hr : Reachable s) (b : Bytes)
@@ -574,6 +586,15 @@ theorem emitted_vector_is_received_reachable (a b : State) (ha : Reachable a) (h
       (∀ k, vget (step a .publish).1.loc k ≤ vget r.1.loc k) := by
   obtain ⟨h1, h2, h3, _⟩ := reachable_wf a ha
   exact emitted_vector_is_received a b h1 h2 h3 hq wire he hno
+
+/-- **local_vector_received_reachable.** `vector_received` for the local vector of any reachable node `a` (whatever
+    made it send: a publication, the steady-state timer, the end of a suppression period): feeding the bytes to a node
+    `b` that `a` does not over-claim makes `b`'s local vector the entry-wise maximum of the two. -/
+theorem local_vector_received_reachable (a b : State) (ha : Reachable a) (wire : Bytes)
+    (he : encodeVector a.loc = .ok wire) (hno : vget a.loc b.selfId ≤ b.selfSeq) :
+    ∃ r, stepBytes b wire = .ok r ∧ ∀ k, vget r.1.loc k = max (vget b.loc k) (vget a.loc k) := by
+  obtain ⟨h1, h2, _, _⟩ := reachable_wf a ha
+  exact vector_received a.loc h2 h1.1 (reachable_loc_ne_nil a ha) wire he b hno
 
 /-- **timer_emits_decodable_reachable.** Whatever a reachable node emits on a timer expiry (steady state, or the end
     of a suppression period) decodes at the peer to exactly its local vector. -/
